@@ -9,6 +9,7 @@
 #include <algorithm>
 #include <sys/stat.h>
 #include <unistd.h>
+#include <sys/wait.h>
 
 using namespace sim;
 typedef CallasDonnerhackeFinneyShawThayerRFC4880 PGP;
@@ -551,7 +552,107 @@ static void file_case(World &W)
 	if (altered && verified) W.violate("C20", std::string("altered_file_verifies_") + (text ? "text" : "binary"), "signature still verifies although " + what + "; " + id);
 }
 
+// ---- cross-check with GnuPG (gpgv): the verifier node runs another implementation of RFC 4880
+static std::string g_gpg_home; static int g_gpg_state = 0; // 0 not tried, 1 ready, 2 unavailable
+
+static int run_cmd(const std::string &cmd, std::string &out)
+{
+	out.clear();
+	FILE *f = popen(cmd.c_str(), "r"); if (!f) return -1;
+	char buf[4096]; size_t n;
+	while ((n = fread(buf, 1, sizeof(buf), f)) > 0) out.append(buf, n);
+	int st = pclose(f);
+	return (st == -1) ? -1 : (WIFEXITED(st) ? WEXITSTATUS(st) : 128);
+}
+
+static bool gpg_setup()
+{
+	if (g_gpg_state) return g_gpg_state == 1;
+	std::string o;
+	if (run_cmd("gpgv --version 2>/dev/null", o) != 0 || o.find("GnuPG") == std::string::npos) { g_gpg_state = 2; return false; }
+	(void)mkdir("build", 0777); (void)mkdir("build/scratch", 0777);
+	g_gpg_home = "build/scratch/gnupg-" + std::to_string((long)getpid());
+	(void)mkdir(g_gpg_home.c_str(), 0700);
+	tmcg_openpgp_octets_t ring;
+	static const size_t idx[] = { 0, 1, 2, 4 };
+	for (size_t k = 0; k < 4; k++)
+	{
+		tmcg_openpgp_octets_t all; std::string uid;
+		build_keyblock(g_keys[idx[k]], TK + 3600, all, uid);
+		ring.insert(ring.end(), all.begin(), all.end());
+	}
+	if (!put_file(g_gpg_home + "/ring.gpg", ring)) { g_gpg_state = 2; return false; }
+	g_gpg_state = 1; return true;
+}
+
+static int gpgv_verify(const std::string &sigfile, const std::string &docfile, std::string &status)
+{
+	// 1 good signature, 0 bad signature, -1 anything else (error, key not found, ...)
+	std::string cmd = "gpgv --homedir " + g_gpg_home + " --keyring ./" + g_gpg_home + "/ring.gpg --status-fd 1 " + sigfile + " " + docfile + " 2>/dev/null";
+	(void)run_cmd(cmd, status);
+	if (status.find("[GNUPG:] GOODSIG") != std::string::npos && status.find("[GNUPG:] VALIDSIG") != std::string::npos) return 1;
+	if (status.find("[GNUPG:] BADSIG") != std::string::npos) return 0;
+	return -1;
+}
+
+static void gnupg_case(World &W)
+{
+	const Plan &p = W.plan;
+	const Key &K = pick_key(p);
+	tmcg_openpgp_hashalgo_t H = HASHES[(size_t)p.get("hash", 0) % 3];  // SHA-256/384/512
+	bool text = p.get("text", 0) != 0, fileapi = p.get("fileapi", 0) != 0;
+	if (!gpg_setup()) { W.res.cnt["probe.gnupg_unavailable"]++; W.S.hist.add(H_RESULT, 77, 0, 0); return; }
+	// document: printable lines with LF or CRLF endings (no stray CR, no trailing blanks: the canonical form of
+	// such lines is the same in every implementation), or arbitrary octets in binary mode
+	tmcg_openpgp_octets_t doc;
+	size_t lines = (size_t)W.S.gen.below(6);
+	for (size_t l = 0; l < lines; l++)
+	{
+		size_t len = W.S.gen.below(60);
+		for (size_t i = 0; i < len; i++) doc.push_back(text ? (tmcg_openpgp_byte_t)(0x21 + W.S.gen.below(94)) : (tmcg_openpgp_byte_t)W.S.gen.next());
+		if (l + 1 == lines && W.S.gen.below(4) == 0) break;
+		if (text && W.S.gen.below(2)) doc.push_back('\r');
+		doc.push_back('\n');
+	}
+	time_t Ts = TK + 86400 + (time_t)W.S.gen.below(1000);
+	W.set_clock(0, Ts);
+	std::string docfile = g_gpg_home + "/doc.bin", sigfile = g_gpg_home + "/sig.pgp";
+	if (!put_file(docfile, doc)) { W.res.cnt["probe.scratch_unwritable"]++; return; }
+	tmcg_openpgp_octets_t trailer, hash, left, sigpkt;
+	PGP::PacketSigPrepareDetachedSignature(text ? TMCG_OPENPGP_SIGNATURE_CANONICAL_TEXT_DOCUMENT : TMCG_OPENPGP_SIGNATURE_BINARY_DOCUMENT, K.algo, H, Ts, 0, "", K.keyid, trailer);
+	bool hashed;
+	if (fileapi) hashed = text ? PGP::TextDocumentHash(docfile, trailer, H, hash, left) : PGP::BinaryDocumentHash(docfile, trailer, H, hash, left);
+	else hashed = text ? PGP::TextDocumentHash(doc, trailer, H, hash, left) : PGP::BinaryDocumentHash(doc, trailer, H, hash, left);
+	if (!hashed) { W.res.cnt["probe.file_hash_refused"]++; return; }
+	if (sign_any(K, hash, H, trailer, left, sigpkt)) { W.res.cnt["probe.sign_failed"]++; return; }
+	if (!put_file(sigfile, sigpkt)) { W.res.cnt["probe.scratch_unwritable"]++; return; }
+	std::string st;
+	int good = gpgv_verify(sigfile, docfile, st);
+	std::string id = std::string(text ? "text" : "binary") + " document, " + (fileapi ? "file" : "octet") + " interface, " + std::to_string(doc.size()) + " octets, key=" + K.name + " hash=" + std::to_string((int)H);
+	W.res.cnt["probe.gnupg_verifications"]++;
+	if (good != 1) { W.violate("C20", "gnupg_rejects_signature", "gpgv does not report a good signature for a signature made by the library; " + id + "; status: " + st.substr(0, 300)); return; }
+	// the same signature over an altered document must be bad in GnuPG too
+	int bad = -2;
+	if (!doc.empty())
+	{
+		tmcg_openpgp_octets_t d2 = doc; size_t off = (size_t)p.get("fa", 0) % d2.size(), tries = 0;
+		while (text && (d2[off] == '\r' || d2[off] == '\n') && tries < d2.size()) { off = (off + 1) % d2.size(); tries++; }
+		if (!(text && (d2[off] == '\r' || d2[off] == '\n')))
+		{
+			d2[off] = text ? (tmcg_openpgp_byte_t)(d2[off] == 'x' ? 'y' : 'x') : (tmcg_openpgp_byte_t)(d2[off] ^ 0x10);
+			if (put_file(docfile, d2))
+			{
+				bad = gpgv_verify(sigfile, docfile, st); W.res.cnt["fault.file_byte_replaced"]++;
+				if (bad == 1) W.violate("C20", "gnupg_accepts_altered_document", "gpgv reports a good signature over an altered document; " + id);
+			}
+		}
+	}
+	W.S.hist.add(H_RESULT, (uint64_t)(good + 2), (uint64_t)(bad + 2), text);
+}
+
 } // namespace
+
+static bool p_is_c20(const Tier &tier) { return tier.property.empty() || tier.property == "C20"; }
 
 static Plan pgp_generate(uint64_t seed, const Tier &tier)
 {
@@ -562,6 +663,7 @@ static Plan pgp_generate(uint64_t seed, const Tier &tier)
 	int kind = (r < 5) ? 0 : ((r < 7) ? 1 : ((r < 8) ? 2 : 3));
 	if (c12 && g.chance(1, 2)) kind = 3;
 	else if (!c12 && g.chance(1, 6)) kind = 4;
+	else if (!c12 && g.chance(1, 30)) kind = 5;
 	p.cfg["kind"] = kind;
 	p.cfg["doc"] = (int64_t)g.below(6);
 	p.cfg["fa"] = (int64_t)g.below(1 << 20); p.cfg["fb"] = (int64_t)g.below(8);
@@ -579,6 +681,10 @@ static Plan pgp_generate(uint64_t seed, const Tier &tier)
 		p.cfg["jump"] = g.chance(1, 8) ? (g.chance(1, 2) ? 86400 * 800 : -86400 * 800) : 0;
 		unsigned f = (unsigned)g.below(16);
 		p.cfg["fault"] = !faults ? 0 : (c12 ? (int64_t)(6 + g.below(3)) : (f < 5 ? 0 : (int64_t)(1 + (f - 5) % 8)));
+	}
+	else if (kind == 5)
+	{
+		p.cfg["key"] = (int64_t)g.below(4); p.cfg["hash"] = (int64_t)g.below(3); p.cfg["text"] = g.chance(1, 2) ? 1 : 0; p.cfg["fileapi"] = g.chance(1, 2) ? 1 : 0;
 	}
 	else if (kind == 4)
 	{
@@ -611,6 +717,13 @@ static void pgp_enumerate(const Tier &tier, std::vector<Plan> &out)
 			p.cfg["fault"] = 6; p.cfg["fa"] = (int64_t)keep; p.cfg["fb"] = 0; p.cfg["enumerated"] = 1;
 			out.push_back(p);
 		}
+	if (p_is_c20(tier))
+		for (int key = 0; key < 4; key++) for (int h = 0; h < 3; h++) for (int tx = 0; tx < 2; tx++) for (int fi = 0; fi < 2; fi++)
+		{
+			Plan p; p.seed = 9000000 + key * 1000 + h * 100 + tx * 10 + fi; p.property = "C20";
+			p.cfg["kind"] = 5; p.cfg["key"] = key; p.cfg["hash"] = h; p.cfg["text"] = tx; p.cfg["fileapi"] = fi; p.cfg["fa"] = 7; p.cfg["enumerated"] = 1;
+			out.push_back(p);
+		}
 	// every packet of a key block, a detached signature and a message: body truncated at offsets 0..N
 	for (int art = 0; art < 3; art++)
 		for (int key = 0; key < 3; key += (art == 0 ? 1 : 3))
@@ -626,9 +739,9 @@ static void pgp_enumerate(const Tier &tier, std::vector<Plan> &out)
 static RunResult pgp_execute(const Plan &plan)
 {
 	World W(plan);
-	int kind = (int)(plan.get("kind", 0) % 5);
-	if (kind == 0) signature_case(W); else if (kind == 1) message_case(W); else if (kind == 2) aead_case(W); else if (kind == 3) artefact_case(W); else file_case(W);
-	W.res.cnt[kind == 0 ? "probe.signature_cases" : (kind == 1 ? "probe.seipd_cases" : (kind == 2 ? "probe.aead_cases" : (kind == 3 ? "probe.artefact_cases" : "probe.file_cases")))]++;
+	int kind = (int)(plan.get("kind", 0) % 6);
+	if (kind == 0) signature_case(W); else if (kind == 1) message_case(W); else if (kind == 2) aead_case(W); else if (kind == 3) artefact_case(W); else if (kind == 4) file_case(W); else gnupg_case(W);
+	W.res.cnt[kind == 0 ? "probe.signature_cases" : (kind == 1 ? "probe.seipd_cases" : (kind == 2 ? "probe.aead_cases" : (kind == 3 ? "probe.artefact_cases" : (kind == 4 ? "probe.file_cases" : "probe.gnupg_cases"))))]++;
 	W.res.fingerprint = W.S.hist.h ^ derive(plan.seed, 3); W.res.steps = 1; W.res.sim_ms = 0;
 	W.res.nontrivial = plan.get("fault", 0) != 0 || plan.get("now_off", 10) != 10 || plan.get("jump", 0) != 0;
 	return W.res;
@@ -639,8 +752,8 @@ int main(int argc, char **argv)
 	Scenario sc;
 	sc.name = "pgp";
 	sc.real_components = "src/CallasDonnerhackeFinneyShawThayerRFC4880.cc: signature preparation, document hashing, RSA/DSA/ECDSA sign and verify wrappers, packet encoders, SignatureParse/MessageParse and the sub-packet decoders, TMCG_OpenPGP_Signature::CheckValidity/VerifyData, CFB+MDC and AEAD (OCB/EAX) encryption and decryption, TMCG_OpenPGP_Message::Decrypt, PublicKeyBlockParse with TMCG_OpenPGP_Pubkey::CheckSelfSignatures (key + user ID + positive certification built with PacketSigPrepareSelfSignature/CertificationHash); libgcrypt";
-	sc.stub_components = "the wall clock of the two nodes (per-node simulated clock, jumps), the artefact channel between signer/encryptor and verifier/decryptor; keys are fixed test keys; libgcrypt-internal randomness (DSA/ECDSA nonces, RSA blinding) is outside the seam, so only outcomes enter the fingerprint; no GnuPG cross-check";
-	sc.rule = "seeded: detached binary signatures (RSA-2048, DSA-2048, ECDSA P-256) x hash (3 strong, 2 weak) x documents (empty .. 20 kB, mixed line endings) x verifier clock at the boundaries of every validity rule (creation-1, creation, expiry-1, expiry, expiry+1, 25 h +-1 s ahead, signature older than key, clock jump between the checks) against a reference model of the rules, x artefact faults (bit flip in a hashed field / signature value / unhashed area / anywhere, document altered, other key, body truncated with re-encoded length, artefact truncated); SEIPD+MDC messages and AEAD (OCB, EAX; chunk 64..256; lengths around chunk boundaries) x {ciphertext flip, truncation, tag dropped, chunks exchanged or removed, associated data or nonce altered, wrong session key, unprotected packet}; enumerated: signature-packet body truncated at every offset for three key types; distinct = outcome fingerprint per case; whole artefacts (key block = key, user ID, certification; detached signature; SEIPD message) split into packets and damaged structurally: body of any packet truncated / extended with re-encoded length, bit flipped, packet dropped / duplicated / exchanged, then PublicKeyBlockParse+CheckSelfSignatures / SignatureParse+VerifyData / MessageParse+Decrypt; enumerated: every body length 0..299 (thorough 0..599) of every packet of these artefacts";
+	sc.stub_components = "the wall clock of the two nodes (per-node simulated clock, jumps), the artefact channel between signer/encryptor and verifier/decryptor; keys are fixed test keys; libgcrypt-internal randomness (DSA/ECDSA nonces, RSA blinding) is outside the seam, so only outcomes enter the fingerprint; document files are real files under build/scratch (no seam for std::ifstream), GnuPG is the installed gpgv binary run as a child process (cases are skipped and counted as probe.gnupg_unavailable when it is missing)";
+	sc.rule = "seeded: detached binary signatures (RSA-2048, DSA-2048, ECDSA P-256, Ed25519) x hash (3 strong, 2 weak) x documents (empty .. 20 kB, mixed line endings) x verifier clock at the boundaries of every validity rule (creation-1, creation, expiry-1, expiry, expiry+1, 25 h +-1 s ahead, signature older than key, clock jump between the checks) against a reference model of the rules, x artefact faults (bit flip in a hashed field / signature value / unhashed area / anywhere, document altered, other key, body truncated with re-encoded length, artefact truncated); SEIPD+MDC messages and AEAD (OCB, EAX; chunk 64..256; lengths around chunk boundaries) x {ciphertext flip, truncation, tag dropped, chunks exchanged or removed, associated data or nonce altered, wrong session key, unprotected packet}; enumerated: signature-packet body truncated at every offset for three key types; distinct = outcome fingerprint per case; whole artefacts (key block = key, user ID, certification; detached signature; SEIPD message) split into packets and damaged structurally: body of any packet truncated / extended with re-encoded length, bit flipped, packet dropped / duplicated / exchanged, then PublicKeyBlockParse+CheckSelfSignatures / SignatureParse+VerifyData / MessageParse+Decrypt; enumerated: every body length 0..299 (thorough 0..599) of every packet of these artefacts; documents in files: the signer hashes a file (text or binary signature; generated lines with LF / CRLF / CR CR LF endings, tabs, NUL and high octets, lines around the 19994-character limit), the stored file loses its tail, gets an octet replaced, inserted or appended, or disappears, the verifier runs Verify(key, filename) - in text mode only damage that changes the canonical form is asserted; cross-check with GnuPG (gpgv 2.2, a second RFC 4880 implementation as verifier node): signatures by the RSA, DSA, ECDSA P-256 and Ed25519 test keys with SHA-256/384/512 over text and binary documents through the octet and the file interface must be GOODSIG in gpgv and BADSIG after one octet of the document changed (enumerated: 4 keys x 3 hashes x 2 modes x 2 interfaces)";
 	sc.generate = pgp_generate; sc.execute = pgp_execute; sc.enumerate = pgp_enumerate; sc.worker_init = pgp_init;
 	return runner_main(argc, argv, sc);
 }
